@@ -634,6 +634,21 @@ fn read_code(r: &mut R, pool: &Pool, bsm: &Option<Vec<(u16, Vec<u16>)>>, major: 
                 }
                 c.frames = Some(frames);
             }
+            b"StackMap" => {
+                // CLDC stack map (Java ME verifier appendix): u2 count, then per entry u2 offset, u2 n + locals, u2 n + stack; entries in any order.
+                // Same facts as full StackMapTable frames: delivered sorted by position.
+                if had_smt { return Err("duplicate StackMap / StackMapTable".into()); } had_smt = true;
+                let cnt = r.u16(Role::Count)?; let mut frames: Vec<(usize, Frame)> = vec![];
+                for _ in 0..cnt {
+                    let o = r.u16(Role::CodeOffset)? as usize;
+                    let nl = r.u16(Role::Count)?; let mut locals = vec![]; for _ in 0..nl { locals.push(read_vtype(r, pool, &offs)?); }
+                    let ns = r.u16(Role::Count)?; let mut stack = vec![]; for _ in 0..ns { stack.push(read_vtype(r, pool, &offs)?); }
+                    if frames.iter().any(|(p, _)| *p == o) { return Err("two StackMap entries for one offset".into()); }
+                    frames.push((o, Frame { at: offs.insn(o)?, kind: FrameKind::Full { locals, stack } }));
+                }
+                frames.sort_by_key(|(o, _)| *o);
+                c.frames = Some(frames.into_iter().map(|(_, f)| f).collect());
+            }
             b"RuntimeVisibleTypeAnnotations" => c.vis_type_annotations.extend(read_type_annotations(r, pool, Some(&offs), Level::Code)?),
             b"RuntimeInvisibleTypeAnnotations" => c.invis_type_annotations.extend(read_type_annotations(r, pool, Some(&offs), Level::Code)?),
             _ => { let b = r.bytes(len)?; c.unknown.push((name.clone(), Bytes(b.to_vec()))); }
